@@ -116,17 +116,31 @@ func allowsNoMethod(list []string) bool {
 
 func decodeCapture(raw, slash string) string {
 	if slash == "no_decode" {
-		parts := strings.Split(raw, "%2F")
-		for i, p := range parts {
-			u, err := url.PathUnescape(p)
+		// everything but the encoded slashes is decoded; these stay as they were sent, in either hex case
+		var sb strings.Builder
+
+		for rest := raw; ; {
+			i := indexFold(rest, "%2f")
+			part := rest
+
+			if i >= 0 {
+				part = rest[:i]
+			}
+
+			u, err := url.PathUnescape(part)
 			if err != nil {
 				panic("harness: invalid escape generated: " + raw)
 			}
 
-			parts[i] = u
-		}
+			sb.WriteString(u)
 
-		return strings.Join(parts, "%2F")
+			if i < 0 {
+				return sb.String()
+			}
+
+			sb.WriteString(rest[i : i+3])
+			rest = rest[i+3:]
+		}
 	}
 
 	u, err := url.PathUnescape(raw)
@@ -136,6 +150,8 @@ func decodeCapture(raw, slash string) string {
 
 	return u
 }
+
+func indexFold(s, sub string) int { return strings.Index(strings.ToLower(s), strings.ToLower(sub)) }
 
 // "%25" is the escaped percent sign: followed by "20" the value is the text "%20", which must not be decoded a second time
 var atoms = []string{"a", "b", "x", "-", ".", "%41", "%5B", "%5b", "%20", "%25", "%C3%A9", "%3A", "%2A", "%7E", "a", "b", "%25", "%25", "20", "41",
@@ -149,7 +165,7 @@ func genRawSeg(t *rapid.T, slashOK bool, label string) string {
 
 	for i := 0; i < n; i++ {
 		if slashOK && rapid.IntRange(0, 5).Draw(t, label+".slash") == 0 {
-			sb.WriteString("%2F")
+			sb.WriteString(rapid.SampledFrom([]string{"%2F", "%2F", "%2f"}).Draw(t, label+".slashSpelling"))
 
 			continue
 		}
@@ -592,7 +608,7 @@ func TestMatchConditionsAndCaptures(t *testing.T) {
 		if !ok {
 			wantRule = "<default>"
 
-			if strings.Contains(req.RawPath, "%2F") {
+			if indexFold(req.RawPath, "%2F") >= 0 {
 				// the default rule never permits encoded slashes: C08's subject
 				vkit.S.Label("dont_care:default_rule_with_encoded_slash")
 
@@ -641,7 +657,8 @@ func TestMatchConditionsAndCaptures(t *testing.T) {
 
 		nt = nt || strings.Contains(req.RawPath, "%")
 		vkit.S.LabelIf(strings.Contains(req.RawPath, "%"), "encoded_octet_in_path")
-		vkit.S.LabelIf(strings.Contains(req.RawPath, "%2F"), "encoded_slash_in_path")
+		vkit.S.LabelIf(indexFold(req.RawPath, "%2F") >= 0, "encoded_slash_in_path")
+		vkit.S.LabelIf(strings.Contains(req.RawPath, "%2F") && strings.Contains(req.RawPath, "%2f"), "encoded_slashes_in_both_hex_cases")
 		vkit.S.LabelIf(ok, "some_rule_expected")
 		vkit.S.LabelIf(inspected >= 2, "backtracking_decision")
 		vkit.S.LabelIf(len(wantCaps) > 0, "captures_expected")
